@@ -441,8 +441,11 @@ def check_main(args):
                     else:
                         wit_ok += 1
 
+    by_desc = {}
     for inst_name, obl, desc in known_hits:
-        lines.append('KNOWN-FINDING: property=%s %s [%s / %s]' % (pid, desc, inst_name, obl))
+        by_desc.setdefault(desc, []).append(inst_name)
+    for desc, where in by_desc.items():
+        lines.append('KNOWN-FINDING: property=%s %s [reproduced in %d instance(s), e.g. %s]' % (pid, desc, len(where), where[0]))
     for inst_name, obl, path in violations:
         lines.append('VIOLATION property=%s replay=%s' % (pid, path))
         lines.append('  instance=%s obligation=%s' % (inst_name, obl))
